@@ -35,6 +35,19 @@ ASSUMPTIONS = [
 TOL = 1e-9
 
 
+_SHARED_BACKEND = []
+
+
+def shared_backend():
+    """ONE emulator backend object for all the cases of a process (passed as backend=...): a
+    backend is configuration, not a place to keep what an earlier circuit needed."""
+    if not _SHARED_BACKEND:
+        from jaqalpaq.emulator.unitary import UnitarySerializedEmulator
+
+        _SHARED_BACKEND.append(UnitarySerializedEmulator())
+    return _SHARED_BACKEND[0]
+
+
 def ref_states(prog, env, gate_seed, desugar=False):
     ref = Ref(prog, env)
     ref.check_static()
@@ -115,7 +128,7 @@ def _reverse_par(stmts):
     return out
 
 
-def run_emulator(prog, env, natives, budget):
+def run_emulator(prog, env, natives, budget, reuse_backend=False):
     from jaqalpaq.core.algorithm import fill_in_let
     from jaqalpaq.emulator import run_jaqal_circuit
 
@@ -129,14 +142,62 @@ def run_emulator(prog, env, natives, budget):
             raise Violation("rejected-valid-program", f"fill_in_let: {c}\n--- overrides {env}\n--- program:\n{text}", where="fill_in_let:" + _msgkey(c))
     np.random.seed(12345)
     with step_budget(budget):
-        st_, res = guard(run_jaqal_circuit, c, what="run_jaqal_circuit")
+        if reuse_backend:
+            st_, res = guard(run_jaqal_circuit, c, backend=shared_backend(), what="run_jaqal_circuit(backend=shared)")
+        else:
+            st_, res = guard(run_jaqal_circuit, c, what="run_jaqal_circuit")
     if st_ == "err":
         raise Violation("rejected-valid-program", f"run: {res}\n--- overrides {env}\n--- program:\n{text}", where="run:" + _msgkey(res))
     return res, text
 
 
+def _text_entry_points(prog, n, nsub, seen, budget):
+    """The same program through run_jaqal_string and run_jaqal_file (gates loaded by the
+    program's own `from ... usepulses *`): same subcircuits, same states."""
+    import os
+    import tempfile
+
+    from jaqalpaq.emulator import run_jaqal_string, run_jaqal_file
+
+    p2 = dict(prog)
+    p2["usepulses"] = ["vlib.pulses.full"]
+    text = render.to_text(p2)
+    ctx = f"--- gate set of vlib.pulses.full\n--- program:\n{text}"
+    outs = []
+    np.random.seed(12345)
+    with step_budget(budget):
+        st_, r1 = guard(run_jaqal_string, text, what="run_jaqal_string")
+    outs.append(("run_jaqal_string", st_, r1))
+    d = tempfile.mkdtemp(prefix="vlibc03_")
+    try:
+        fn = os.path.join(d, "prog.jaqal")
+        with open(fn, "w") as fd:
+            fd.write(text)
+        np.random.seed(12345)
+        with step_budget(budget):
+            st_, r2 = guard(run_jaqal_file, fn, what="run_jaqal_file")
+        outs.append(("run_jaqal_file", st_, r2))
+    finally:
+        import shutil
+
+        shutil.rmtree(d, ignore_errors=True)
+    for who, st_, res in outs:
+        if st_ == "err":
+            raise Violation("rejected-valid-program", f"{who}: {res}\n{ctx}", where=who + ":" + _msgkey(res))
+        if len(res.subcircuits) != nsub:
+            raise Violation("subcircuit-count", f"{who}: {len(res.subcircuits)} != reference {nsub}\n{ctx}", where=who)
+        for idx, state in seen.items():
+            want = refsim.flat(state)
+            got = np.asarray(res.subcircuits[idx].state_vector)
+            if got.shape != want.shape or not float(np.max(np.abs(got - want))) <= TOL:
+                raise Violation("state-vector", f"{who}, subcircuit {idx}\nemulator  {np.round(got, 4)}\nreference {np.round(want, 4)}\n{ctx}", where=who)
+
+
 def check(case):
     prog, gate_seed = case["prog"], case["gate_seed"]
+    via_text = gate_seed % 3 == 0 and not prog["usepulses"]
+    if via_text:
+        gate_seed = 0  # the gate set that vlib.pulses.full exposes
     natives = gates.make_gates(gate_seed)
     classes = set()
     key = None
@@ -154,14 +215,28 @@ def check(case):
         if size * 2**n > 3000 * 32:
             raise Skip()  # bounded by case size (emulator cost ~ gates x 2^n), never by a clock
         budget = 2000 * (size + 50) + 10**6
-        res, text = run_emulator(prog, env, natives, budget)
-        ctx = f"--- gate-set seed {gate_seed}, overrides {env}\n--- program:\n{text}"
+        reuse = gate_seed % 2 == 0
+        res, text = run_emulator(prog, env, natives, budget, reuse_backend=reuse)
+        ctx = f"--- gate-set seed {gate_seed}, overrides {env}{', shared backend object' if reuse else ''}\n--- program:\n{text}"
         if len(res.subcircuits) != nsub:
             raise Violation("subcircuit-count", f"emulator {len(res.subcircuits)} != reference {nsub}\n{ctx}")
         seen = {}
         for idx, state in visits:
             if not isinstance(state, str):
                 seen.setdefault(idx, state)
+        # subcircuit BLOCKS that are never visited (zero-count loops) still report their own state
+        ref_ = Ref(prog, env)
+        acc_ = refexec.accept(tree)
+
+        def _apply(state, name, vals):
+            m_ = gates.matrix(gate_seed, name, [v[1] for v in vals if v[0] == "num"])
+            return state if m_ is None else refsim.apply(state, m_, [v[1] for v in vals if v[0] == "q"])
+
+        unvisited = 0
+        for idx, state in refexec.subcircuit_block_states(tree, acc_[2], _apply, lambda: refsim.zero_state(n)).items():
+            if idx not in seen:
+                seen[idx] = state
+                unvisited += 1
         for idx, state in seen.items():
             want = refsim.flat(state)
             got = np.asarray(res.subcircuits[idx].state_vector)
@@ -174,6 +249,9 @@ def check(case):
             perr = float(np.max(np.abs(p - np.abs(want) ** 2)))
             if not perr <= TOL:
                 raise Violation("probabilities", f"subcircuit {idx}: max |p - |ref|^2| = {perr:.3g}\n{ctx}")
+        if via_text and not env:
+            _text_entry_points(prog, n, nsub, seen, budget)
+            classes.add("text-entry-points")
         # metamorphic: parallel branch order is irrelevant
         feats = _features(tree, prog)
         if "parallel" in feats and not env:
@@ -189,11 +267,76 @@ def check(case):
         classes |= feats
         if env:
             classes.add("with-override")
+        if unvisited:
+            classes.add("unvisited-subcircuit-block")
+        if reuse:
+            classes.add("shared-backend-object")
         nt = nt or bool(feats & {"non-ascending-tuple", "aliased-qubit", "gate-in-repeated-loop"}) and bool(seen)
         key = text + repr(sorted(case.get("env", {}).items())) + str(gate_seed)
         sample = {"text": text, "overrides": case.get("env", {}), "gate_seed": gate_seed, "n_qubits": n, "subcircuits": nsub}
     classes.add("qubits:%d" % n)
     return {"nontrivial": nt, "classes": sorted(classes), "key": key, "sample": sample}
+
+
+# ------------------------------------------------------------------------------ gate family
+# Kinds of definitions the random gate sets do not contain: a BUSY gate that has a unitary, gates
+# without unitary whose parameter is a whole register or untyped, idle twins of those - each in a
+# small hand-written program whose outcome is certain.
+
+FAMILY = [
+    ("busy gate with a unitary acts like any gate", "prepare_all\nX q[0]\nBUSX q[1]\nmeasure_all\n", 3),
+    ("busy gate in a subcircuit block", "subcircuit {\nBUSX q[2]\nX q[0]\n}\n", 5),
+    ("unitary-less gate with a whole register / alias argument", "prepare_all\nRGN q\nX q[2]\nRGN a\nmeasure_all\n", 4),
+    ("unitary-less gate with an untyped parameter", "prepare_all\nNNN q[1]\nNNN 0.5\nX q[0]\nI_RGN a\nI_NNN q[2]\nmeasure_all\n", 1),
+    ("idle twin of a busy gate beside another gate", "subcircuit {\nX q[1]\n< I_BUSX q[0] | X q[2] >\n}\n", 6),
+    ("register-typed gate on aliases inside a macro", "macro m r i { RGN r; X a[i] }\nsubcircuit { m a 1; m q 0 }\n", 6),
+    ("busy gate between sections", "loop 2 {\nprepare_all\nBUSX q[0]\nI_BUSX q[1]\nmeasure_all\n}\n", 1),
+]
+
+
+def family_case(case):
+    from jaqalpaq.core import GateDefinition, Parameter, ParamType
+    from jaqalpaq.core.gatedef import BusyGateDefinition, add_idle_gates
+    from jaqalpaq.core.algorithm import get_used_qubit_indices
+    from jaqalpaq.emulator import run_jaqal_circuit
+
+    title, body, want = FAMILY[case["i"]]
+    x = np.array([[0, 1], [1, 0]], dtype=complex)
+    base = {
+        "prepare_all": BusyGateDefinition("prepare_all"),
+        "measure_all": BusyGateDefinition("measure_all"),
+        "X": GateDefinition("X", [Parameter("a", ParamType.QUBIT)], ideal_unitary=lambda: x),
+        "BUSX": BusyGateDefinition("BUSX", [Parameter("a", ParamType.QUBIT)], ideal_unitary=lambda: x),
+        "RGN": GateDefinition("RGN", [Parameter("r", ParamType.REGISTER)]),
+        "NNN": GateDefinition("NNN", [Parameter("v", None)]),
+    }
+    nat = add_idle_gates(base)
+    text = "register q[3]\nmap a q[1:3]\n" + body
+    ctx = f"{title}\n--- program:\n{text}"
+    st_, c = guard(parse, text, inject_pulses=nat, what="parse")
+    if st_ == "err":
+        raise Violation("rejected-valid-program", f"parse: {c}\n{ctx}", where="parse")
+    np.random.seed(7)
+    backend = shared_backend() if case["shared"] else None
+    st_, res = guard(run_jaqal_circuit, c, backend=backend, what="run_jaqal_circuit")
+    if st_ == "err":
+        raise Violation("rejected-valid-program", f"run: {res}\n{ctx}", where="run:" + _msgkey(res))
+    for sc in res.subcircuits:
+        p = np.asarray(sc.simulated_probability_by_int, dtype=float)
+        if p.shape != (8,) or abs(p[want] - 1.0) > 1e-9:
+            raise Violation("probabilities", f"expected outcome {want} with certainty, got {np.round(p, 6)}\n{ctx}", where="family")
+    if any(int(r.as_int) != want for r in res.readouts) or not res.readouts:
+        raise Violation("impossible-outcome", f"readouts {[int(r.as_int) for r in res.readouts]}, expected {want}\n{ctx}", where="family")
+    st_, used = guard(get_used_qubit_indices, c, what="get_used_qubit_indices")
+    if st_ == "err":
+        raise Violation("rejected-valid-program", f"get_used_qubit_indices: {used}\n{ctx}", where="used")
+    return {"nontrivial": True, "classes": ["template:%d" % case["i"]], "key": repr(case), "sample": {"text": text, "outcome": want}}
+
+
+def _family_enum(tier):
+    for i in range(len(FAMILY)):
+        for shared in (False, True):
+            yield {"i": i, "shared": shared}
 
 
 def cases(max_reg):
@@ -204,4 +347,7 @@ def parts():
     import os
 
     big = os.environ.get("VERIF_TIER") == "thorough"
-    return [Part("emulate", cases(7 if big else 5), check, quick=4000, thorough=60000, min_nontrivial=0.2)]
+    return [
+        Part("emulate", cases(7 if big else 5), check, quick=4000, thorough=60000, min_nontrivial=0.2),
+        Part("gate-family", None, family_case, quick=0, thorough=0, exhaustive=_family_enum, shards=1),
+    ]
